@@ -1,12 +1,13 @@
 """C08 - Projection is hypergeometric subsampling: conserving, composable, mask-monotone
 
-Status: bounded run-time contracts only (props/bounded_C08.py) until the proof obligations of DESIGN.md 7 C08 are added.
+Contracts: the obligations listed in tasks() (contracts/py_wiring.py, contracts/py_memo.py, contracts/c_*.py) are generated from the real source on every run and
+discharged by z3 / the ring normaliser; clauses outside their reach are run-time contracts over stated bounded domains (props/bounded_C08.py).
 """
 from vf.helpers import bounded_tasks
 
 META = dict(
     level='other',
-    explanation='Run-time contracts on the real functions over the bounded domain stated per driver (bounded stand-in; nothing proved).',
+    explanation='Wiring / closed-form / memo-key contracts generated from the real source and discharged by z3 and the ring normaliser for the functions within reach (see coverage.obligations); the remaining clauses are run-time contracts over the bounded domain stated per driver (bounded stand-in, never counted as proved).',
     trusted_base=['oracles of props/bounded_C08.py (independent of dadi: exact rationals, mpmath, dense linear algebra, explicit index loops)'],
     rule='cases enumerated or sampled as stated in each driver\'s bound; a case is non-trivial unless the driver marks it degenerate; distinct by its key',
 )
